@@ -211,7 +211,12 @@ static int32_t wr_index(struct jls_core_fsr_s * self, uint8_t level) {
 static int32_t wr_summary(struct jls_core_fsr_s * self, uint8_t level) {
     struct jls_core_fsr_level_s * dst = self->level[level];
     if (!dst->summary->header.entry_count) {
-        return 0;
+        // A final chunk without a whole summary entry still needs its index entries,
+        // unless it is the only chunk of an upper level (then the head table reaches below).
+        struct jls_core_track_s * track = &self->parent->tracks[JLS_TRACK_TYPE_FSR];
+        if (!dst->index->header.entry_count || ((level != 1) && !track->index_head[level].offset)) {
+            return 0;
+        }
     }
     int64_t pos_next = jls_raw_chunk_tell(self->parent->parent->raw);
     ROE(wr_index(self, level));
